@@ -2216,4 +2216,139 @@ theorem failure_local' (cfg' : Cfg) (picks' : List Nat) (k : Key3) (i : Nat) (ro
 
 end local_
 
+/-! ## phase 4 (a): resumed runs with process state -/
+
+section resumedP
+variable {G S P Row : Type} {cp : CompsP G S P Row} {Clean : G → Prop} (hc : ProcessLocalClean cp Clean)
+  (cfg : Cfg) (sched : Sched) (seed : Nat) (ts : List Triple)
+include hc
+
+omit hc in
+theorem chunksOnP_eq (tasks : List Task) : chunksOnP cp cfg tasks = chunksOn (cp.clean ts) cfg tasks := rfl
+
+/-- processing ANY task list whose copy flags are those of `MakeTasks ts` and which never re-uses a learner cell after
+an in-place evaluation: in-process from any clean state, or on workers under any assignment, retirement and
+interleaving, the events are, each once, the pristine events of the tasks -/
+theorem runEventsOnPFrom_perm (σ : G) (hσ : Clean σ) (tasks : List Task) (hA : AtMostOnce tasks)
+    (hokT : ∀ t ∈ tasks, t.copyOK ts) :
+    (runEventsOnPFrom cp cfg sched seed σ tasks).1 ~ tasks.map (pristineEv (cp.clean ts) seed) := by
+  have hflat := chunksOn_flatten (cp.clean ts) cfg tasks
+  have hAll : AtMostOnce (chunksOn (cp.clean ts) cfg tasks).flatten := hA.perm hflat.symm
+  have hok : ∀ t ∈ (chunksOn (cp.clean ts) cfg tasks).flatten, t.copyOK ts :=
+    fun t ht => hokT t (hflat.mem_iff.1 ht)
+  unfold runEventsOnPFrom
+  rw [chunksOnP_eq cfg ts]
+  by_cases hm : cfg.multi = true
+  · simp only [hm, if_true]
+    have hl : (retire cfg.mc (livesOf sched.assign (chunksOn (cp.clean ts) cfg tasks))).flatten ~ chunksOn (cp.clean ts) cfg tasks := by
+      rw [retire_flatten]; exact livesOf_flatten _ _
+    refine (interleave_perm _ _).trans ?_
+    rw [flatMap_runLifeP hc seed ts]
+    · refine ((hl.map _).flatten).trans ?_
+      rw [flatten_map_runSeq (cp.clean ts) seed _ (fun ch hch => hAll.sublist (sublist_flatten_of_mem hch))]
+      exact hflat.map _
+    · intro life hlife ch hch t ht
+      have : ch ∈ chunksOn (cp.clean ts) cfg tasks := hl.mem_iff.1 (mem_flatten.2 ⟨life, hlife, hch⟩)
+      exact hok t (mem_flatten.2 ⟨ch, this, ht⟩)
+  · have hm' : cfg.multi = false := by simpa using hm
+    simp only [hm', Bool.false_eq_true, if_false]
+    rw [(runSeqP_clean hc seed ts _ σ cp.init hσ hok).1]
+    have : liftHeap cp.init = (cp.clean ts).init := rfl
+    rw [this, runSeq_pristine (cp.clean ts) seed _ _ (fun _ _ _ _ => rfl) hAll.noReuse]
+    exact hflat.map _
+
+omit hc in
+theorem resumedTasks_sublist (old : List (Rec P Row)) : (resumedTasks old ts).Sublist (makeTasks .none ts) := by
+  rw [resumedTasks, makeTasks_restored]; exact filter_sublist
+
+/-- `run_eq_spec_restored` with process state -/
+theorem runResumedPFrom_eq_spec' (σ : G) (hσ : Clean σ) (done : Task → Bool) (old : List (Rec P Row))
+    (hold : old ~ doneRecs (cp.clean ts) seed ts done) :
+    runResumedPFrom cp cfg sched seed σ ts old = resultSP cp seed ts := by
+  have hsub := resumedTasks_sublist (P := P) (Row := Row) ts old
+  have hA : AtMostOnce (resumedTasks old ts) := (makeTasks_atMostOnce ts).sublist hsub
+  have hok : ∀ t ∈ resumedTasks old ts, t.copyOK ts := fun t ht => copyOK_of_mem (hsub.subset ht)
+  have h1 : (runEventsOnPFrom cp cfg sched seed σ (resumedTasks old ts)).1 ~
+      (runEventsOn (cp.clean ts) cfg [] seed (resumedTasks old ts)).1 :=
+    (runEventsOnPFrom_perm hc cfg sched seed ts σ hσ _ hA hok).trans
+      (runEventsOn_perm (cp.clean ts) cfg [] seed _ hA).symm
+  unfold runResumedPFrom resultSP
+  apply result_of_records_perm (cp.clean ts) cfg [] seed ts
+  unfold runRecords
+  refine Perm.cons _ ?_
+  refine (Perm.append_left old (h1.filterMap Ev.rec?)).trans ?_
+  refine (resumed_records_perm (cp.clean ts) cfg [] seed ts done old hold).trans ?_
+  rw [← filterMap_rec_eq]
+  exact ((runEvents_perm (cp.clean ts) cfg [] seed ts).filterMap _).symm
+
+/-- a resumed in-process run leaves the caller's process clean -/
+theorem resumed_state_clean' (σ : G) (hσ : Clean σ) (old : List (Rec P Row)) :
+    Clean (runEventsOnPFrom cp cfg sched seed σ (resumedTasks old ts)).2.1 := by
+  unfold runEventsOnPFrom
+  by_cases hm : cfg.multi = true
+  · simp only [hm, if_true]; exact hσ
+  · have hm' : cfg.multi = false := by simpa using hm
+    simp only [hm', Bool.false_eq_true, if_false]
+    have hsub := resumedTasks_sublist (P := P) (Row := Row) ts old
+    have hflat := chunksOn_flatten (cp.clean ts) cfg (resumedTasks old ts)
+    rw [chunksOnP_eq cfg ts]
+    exact (runSeqP_clean hc seed ts _ σ cp.init hσ
+      (fun t ht => copyOK_of_mem (hsub.subset (hflat.mem_iff.1 ht)))).2
+
+end resumedP
+
+/-! ## phase 4 (b): SequentialCB as the evaluation component -/
+
+section seqcb
+variable {σ V R P : Type} [DecidableEq V] [Coba.C06.RewardFn R V] (w : SeqWorld σ V R P)
+
+/-- what the spec says for one triple of a `SeqWorld`: `SequentialCB.evaluate` on the pristine learner -/
+theorem evalS_seqComps (seed : Nat) (t : Triple) :
+    evalS (seqComps w) seed t =
+      match w.envRows t.1 with
+      | .error _ => .error .raised
+      | .ok rows =>
+        (seqOutcome (R := R) (t.2.1, w.init t.2.1)
+          (Coba.C06.evaluate (w.cfgOf t.2.2) (w.learner t.2.1) (w.batch t.1) rows (w.init t.2.1))).1 := by
+  obtain ⟨e, l, v⟩ := t
+  simp only [evalS, seqComps, seqEval]
+  cases w.envRows e <;> rfl
+
+omit [DecidableEq V] [Coba.C06.RewardFn R V] in
+theorem seqOutcome_ok_iff (ls : Nat × σ) (o : Coba.C06.Outcome (σ × List (Coba.C06.Call V) × List (Coba.C06.Row V R)))
+    (rows : List (Coba.C06.Row V R)) :
+    (seqOutcome ls o).1 = .ok rows ↔ ∃ s calls, o = .ok (s, calls, rows) := by
+  cases o with
+  | ok r => obtain ⟨s, calls, rs⟩ := r; simp [seqOutcome]
+  | rejected k => simp [seqOutcome]
+  | crashed e => simp [seqOutcome]
+
+/-- rows of a whole experiment over SequentialCB = rows of `C06.evaluate` on the pristine learner, for every
+configuration and schedule -/
+theorem sequentialCB_rows' (cfg : Cfg) (picks : List Nat) (seed : Nat) (ts : List Triple) (t : Triple) (ht : t ∈ ts)
+    (inter : List (Coba.C06.Dict (Coba.C06.Fld V R))) (henv : w.envRows t.1 = .ok inter) :
+    (run (seqComps w) cfg picks seed ts).rowsOf (idKey ts t) =
+      match Coba.C06.evaluate (w.cfgOf t.2.2) (w.learner t.2.1) (w.batch t.1) inter (w.init t.2.1) with
+      | .ok r => numbered r.2.2
+      | .rejected _ => []
+      | .crashed _ => [] := by
+  rw [rowsOf_run' (seqComps w) cfg picks seed ts t ht, evalS_seqComps, henv]
+  dsimp only
+  generalize Coba.C06.evaluate (w.cfgOf t.2.2) (w.learner t.2.1) (w.batch t.1) inter (w.init t.2.1) = o
+  cases o <;> rfl
+
+theorem sequentialCB_read_failure' (cfg : Cfg) (picks : List Nat) (seed : Nat) (ts : List Triple) (t : Triple) (ht : t ∈ ts)
+    (err : Err) (henv : w.envRows t.1 = .error err) :
+    (run (seqComps w) cfg picks seed ts).rowsOf (idKey ts t) = [] := by
+  rw [rowsOf_run' (seqComps w) cfg picks seed ts t ht, evalS_seqComps, henv]
+
+end seqcb
+
+/-- without the isolation hypothesis a resumed run differs from the fresh in-process run: the first evaluation is
+restored from the log, the second one now starts in a fresh process state -/
+theorem leaky_resumed_ints' :
+    (runResumedP leakyComps ⟨1, 0, 0⟩ ⟨[], []⟩ 1 leakyTriples [Rec.T4 (0, 0, 0) [0]]).ints
+      = [((0, 0, 0), 1, 0), ((1, 1, 0), 1, 10)] := by
+  decide +kernel
+
 end Coba.C01
